@@ -1,10 +1,12 @@
 (* Properties/C14.v — partition-consuming functions depend on the partition, not on label values.
-   Only statements; every proof is `exact <lemma of Proofs/Partition.v>`.
+   Only statements; every proof is `exact <lemma>` (Proofs/Partition.v; PartitionJoint.v + PartitionVI.v for the real-valued
+   partition_distance; PartitionDG.v + PartitionGW.v for diversity_coef_sign and gateway_coef_sign).
    Vocabulary: same_part n c c' := forall i j < n, (c i = c j <-> c' i = c' j)   (same partition of 0..n-1);
    for an injective renaming g, [same_part n ci (g o ci)] holds (C14_injective_same_part), so every
    `_partition_only` theorem below gives  f W ci == f W (map g ci). *)
 From Coq Require Import QArith Qreals Reals List Arith Bool ZArith Lia.
-From BCT Require Import Base.Mat Base.SumQ Base.ListX Model.Partition Model.PartitionReal Proofs.Partition Proofs.PartitionVI.
+From BCT Require Import Base.Mat Base.SumQ Base.ListX Model.Partition Model.PartitionReal Model.PartitionDG
+  Proofs.Partition Proofs.PartitionVI Proofs.PartitionDG Proofs.PartitionGW.
 Import ListNotations.
 Open Scope Q_scope.
 
@@ -20,6 +22,11 @@ Proof.
   intros n ci i Hi. split; [exact (relabel_canon n ci i Hi)|]. split; [exact (relabel_le n ci i Hi)|].
   intros j Hj. exact (relabel_monotone n ci i j Hi Hj).
 Qed.
+
+(* ... and its values are EXACTLY 1..max: every module number is used *)
+Theorem C14_relabel_onto : forall n ci u, (1 <= u <= vmax n (relabel n ci))%nat ->
+  exists i, (i < n)%nat /\ relabel n ci i = u.
+Proof. exact relabel_onto. Qed.
 
 Theorem C14_injective_same_part : forall n (ci : vec Z) (g : Z -> Z), (forall x y, g x = g y -> x = y) ->
   same_part n ci (fun i => g (ci i)).
@@ -132,11 +139,78 @@ Proof. exact VInR_range. Qed.
 Theorem C14_VIn_range : forall n cx cy, (1 < n)%nat -> (0 <= fst (partition_distanceR lnQ n cx cy) <= 1)%R.
 Proof. exact VIn_range_ln. Qed.
 
+(* the other clauses of partition_distance for the same real-valued model with Coq's ln (the theorems above are for an
+   abstract Q-valued log; these are about the natural logarithm itself; n >= 1 because P = count / n) *)
+Theorem C14_partition_distance_ln_symmetric : forall n cx cy, (0 < n)%nat ->
+  fst (partition_distanceR lnQ n cx cy) = fst (partition_distanceR lnQ n cy cx) /\
+  snd (partition_distanceR lnQ n cx cy) = snd (partition_distanceR lnQ n cy cx).
+Proof. exact partition_distance_ln_symmetric. Qed.
+
+Theorem C14_partition_distance_ln_partition_only : forall n cx cy cx' cy', (0 < n)%nat ->
+  same_part n cx cx' -> same_part n cy cy' -> partition_distanceR lnQ n cx cy = partition_distanceR lnQ n cx' cy'.
+Proof. exact partition_distance_ln_partition_only. Qed.
+
+Theorem C14_partition_distance_ln_same : forall n cx cy, (0 < n)%nat -> same_part n cx cy ->
+  fst (partition_distanceR lnQ n cx cy) = 0%R /\ snd (partition_distanceR lnQ n cx cy) = 1%R.
+Proof. exact partition_distance_ln_same. Qed.
+
+Theorem C14_partition_distance_ln_exactly_when : forall n cx cy, (1 < n)%nat ->
+  (fst (partition_distanceR lnQ n cx cy) = 0%R <-> same_part n cx cy) /\
+  (snd (partition_distanceR lnQ n cx cy) = 1%R <-> same_part n cx cy).
+Proof. exact partition_distance_ln_exactly_when. Qed.
+
 (* non-vacuity, and the bound 1 is attained: one block against two singletons *)
 Example C14_VIn_range_nonvacuous :
   let cx := of_list 0%Z [7; 7]%Z in let cy := of_list 0%Z [-3; 5]%Z in
   pd_trivial 2 cx cy = false /\ fst (partition_distanceR lnQ 2 cx cy) = 1%R.
 Proof. exact VIn_range_tight. Qed.
+
+(* ---- diversity_coef_sign, for ANY log that respects == ---- *)
+Theorem C14_diversity_coef_sign_partition_only : forall log : Q -> Q, (forall a b, a == b -> log a == log b) ->
+  forall n W ci ci' i, same_part n ci ci' ->
+  fst (diversity_coef_sign log n W ci) i == fst (diversity_coef_sign log n W ci') i /\
+  snd (diversity_coef_sign log n W ci) i == snd (diversity_coef_sign log n W ci') i.
+Proof. exact diversity_coef_sign_partition_only. Qed.
+
+Example C14_diversity_nonvacuous :
+  let log := fun x => x - 1 in
+  let ci := of_list 0%Z [5; 5; 9; 2]%Z in
+  let g := fun z => (100 - 3 * z)%Z in
+  let W := of_rows 0 [[0; 1; -2; 0]; [1; 0; 0; 3]; [-2; 0; 0; 1]; [0; 3; 1; 0]]%list in
+  Qred (fst (diversity_coef_sign log 4 W ci) 1%nat) = 3 # 16 /\
+  Qred (fst (diversity_coef_sign log 4 W (fun i => g (ci i))) 1%nat) = 3 # 16.
+Proof. vm_compute. split; reflexivity. Qed.
+
+(* ---- gateway_coef_sign (centrality_type = 'degree') ----
+   The property text asks for [gateway_partition_only_statement]:
+     forall n W ci ci', same_part n ci ci' -> gw_agree n (gateway_coef_sign n W ci) (gateway_coef_sign n W ci')
+   (both raise IndexError, or both return and the coefficients agree).  The faithful model of the code AS IT IS
+   REFUTES it: one edge 0-1, blocks {0,1} {2}; numbering the blocks (1,2) gives Gpos = [3/4, 7/16, 0], numbering them
+   (2,1) gives [7/16, 3/4, 0] (kj[i] /= 2 halves the row whose index is the module number).  The harness replays
+   the witness on the implementation: open finding gateway_coef_sign:relabel. *)
+Theorem C14_gateway_coef_sign_refuted :
+  exists n W ci ci', same_part n ci ci' /\ ~ gw_agree n (gateway_coef_sign n W ci) (gateway_coef_sign n W ci').
+Proof. exact gateway_coef_sign_refuted. Qed.
+
+Theorem C14_gateway_coef_sign_statement_false : ~ gateway_partition_only_statement.
+Proof. exact gateway_partition_only_statement_false. Qed.
+
+Theorem C14_gateway_witness_values :
+  run_gw [[0; 1; 0]; [1; 0; 0]; [0; 0; 0]]%list [1; 1; 2]%Z = Some ([3 # 4; 7 # 16; 0], [0; 0; 0])%list /\
+  run_gw [[0; 1; 0]; [1; 0; 0]; [0; 0; 0]]%list [2; 2; 1]%Z = Some ([7 # 16; 3 # 4; 0], [0; 0; 0])%list.
+Proof. exact gw_witness_values. Qed.
+
+(* the REPAIRED form (proposed_fixes/gateway_coef_sign.diff: column sums with axis=0, own column halved, neighbour
+   centralities indexed by node) is a function of the partition only *)
+Theorem C14_gateway_coef_sign_repaired_partition_only : forall n W ci ci' i, same_part n ci ci' -> (i < n)%nat ->
+  fst (gateway_coef_sign_repaired n W ci) i == fst (gateway_coef_sign_repaired n W ci') i /\
+  snd (gateway_coef_sign_repaired n W ci) i == snd (gateway_coef_sign_repaired n W ci') i.
+Proof. exact gateway_coef_sign_repaired_partition_only. Qed.
+
+Example C14_gateway_repaired_nonvacuous :
+  run_gw_repaired [[0; 1; 0]; [1; 0; 0]; [0; 0; 0]]%list [1; 1; 2]%Z = ([3 # 4; 3 # 4; 0], [0; 0; 0])%list /\
+  run_gw_repaired [[0; 1; 0]; [1; 0; 0]; [0; 0; 0]]%list [2; 2; 1]%Z = ([3 # 4; 3 # 4; 0], [0; 0; 0])%list.
+Proof. exact gateway_repaired_on_witness. Qed.
 
 (* ---- ci2ls / ls2ci ---- *)
 Theorem C14_ci2ls_ls2ci_inverse : forall n ci i, (i < n)%nat -> ls2ci (ci2ls n ci) i = relabel n ci i.
@@ -159,6 +233,7 @@ Proof. vm_compute. repeat split; reflexivity. Qed.
 
 Print Assumptions C14_relabel_injective_invariant.
 Print Assumptions C14_relabel_canonical.
+Print Assumptions C14_relabel_onto.
 Print Assumptions C14_injective_same_part.
 Print Assumptions C14_participation_coef_partition_only.
 Print Assumptions C14_participation_coef_formula.
@@ -179,5 +254,14 @@ Print Assumptions C14_MIn_one_same.
 Print Assumptions C14_partition_distance_exactly_when.
 Print Assumptions C14_VIn_range_any_log.
 Print Assumptions C14_VIn_range.
+Print Assumptions C14_partition_distance_ln_symmetric.
+Print Assumptions C14_partition_distance_ln_partition_only.
+Print Assumptions C14_partition_distance_ln_same.
+Print Assumptions C14_partition_distance_ln_exactly_when.
+Print Assumptions C14_diversity_coef_sign_partition_only.
+Print Assumptions C14_gateway_coef_sign_refuted.
+Print Assumptions C14_gateway_coef_sign_statement_false.
+Print Assumptions C14_gateway_witness_values.
+Print Assumptions C14_gateway_coef_sign_repaired_partition_only.
 Print Assumptions C14_ci2ls_ls2ci_inverse.
 Print Assumptions C14_ci2ls_blocks.
